@@ -13,7 +13,7 @@ VARIANTS = ['plain']
 CHUNK = 1
 ENGINE = 'product-enumerator'
 TECHNIQUE = 'exhaustive instruction-form tables x boundary operands from independent reference encoders, executed on the real assembler'
-LEVEL_TEXT = ('The complete documented form tables of the NMOS 6502 (151 opcodes), 8080/8085, 8051 (255 opcodes), M6800 (197 opcodes) with the M68HC11 additions, MC6809 indexed addressing, 4004, PIC16C84, Z80 (main, CB, ED, DD/FD displacement '
+LEVEL_TEXT = ('The complete documented form tables of the NMOS 6502 (151 opcodes) with the 65C02 additions, 8080/8085, 8051 (255 opcodes), M6800 (197 opcodes) with the M68HC11 additions, MC6809 indexed addressing, 4004, PIC16C84, Z80 (main, CB, ED, DD/FD displacement '
               'forms), the AVR classic core (I/O operands as numbers and as PORT-typed symbols) and the MSP430 (all formats, addressing modes, constant generators, emulated mnemonics, jumps) are expanded with operands 0, 1, limit-1, limit and just-out-of-range values, relative branches at '
               'every distance around both limits, page-relative 4004 jumps at the start, middle and last bytes of a ROM page, and illegal '
               'mode/register combinations adjacent to legal ones; every form is assembled and compared byte for byte, every out-of-range form '
